@@ -184,6 +184,8 @@ class _Repr:
     def repr(tasks: Iterable['Task'], fields: Iterable[str] = None, children=True, theme: dict = None):
         if fields is None:
             fields = ['id', 'name', 'resource', 'estimate', 'spent', 'start', 'end', 'predecessors']
+        else:
+            fields = list(fields)
 
         if theme is None:
             theme = _Repr.__DEFAULT_THEME
